@@ -726,7 +726,9 @@ impl Sys {
             maximum_packet_size: Some(2000),
             topic_alias_maximum: Some(3),
             request_response_information: Some(true),
-            request_problem_information: Some(false),
+            // (explicitly set, but to 1: with 0 a client may treat the reason strings and user properties
+            // our broker puts into acknowledgements as a protocol error [MQTT-3.1.2-29])
+            request_problem_information: Some(true),
             user_props: vec![("a".into(), "b".into())],
             clean_start: Some(false),
             username: Some("u".into()),
@@ -742,6 +744,9 @@ impl Sys {
             Prop::u16(P_SERVER_KEEP_ALIVE, 20),
             Prop::byte(P_RETAIN_AVAILABLE, 0),
             Prop::byte(P_MAXIMUM_QOS, 1),
+            // (the server's capabilities bind the server's answers, not what the client may ask for)
+            Prop::byte(P_WILDCARD_SUB_AVAILABLE, 0),
+            Prop::byte(P_SHARED_SUB_AVAILABLE, 0),
             Prop::user("srv", "x"),
             Prop::str(P_RESPONSE_INFO, "ri"),
         ]);
